@@ -9,10 +9,21 @@ ASSUMPTIONS = ['E1, E3, E4 (DESIGN.md section 4)', 'delegated amount after the t
 OUTSIDE = ['more validators / delegation entries than the bound', 'validators of a foreign denomination in the delegation list']
 
 
-def mk(op, nv, nd):
+def equal_delegations(W):
+    """many delegation entries of the plainest shape: the same amount on every validator, nothing slashed (delegated stake =
+    booked stake), the epoch has passed so that the unbond undelegates the batch"""
+    st = W.st
+    for a in W.del_amounts[1:]:
+        st.add(a == W.del_amounts[0])
+    st.add(W.del_amounts[0] >= 10 ** 6, W.D == W.Bb + W.Bs, W.now - W.last_unbonded > W.epoch)
+
+
+def mk(op, nv, nd, shape=None):
     def ob(ctx):
         W = HubWorld(ctx, n_validators=nv, n_delegations=nd)
         W.install()
+        if shape is not None:
+            shape(W)
         I = W.I
         S = I.summ
         nok = 0
@@ -54,10 +65,13 @@ def mk(op, nv, nd):
             if op.startswith('unbond'):
                 ctx.witness('%s with undelegation' % op, st, [e.undelegated > 0], W.mv)
         ctx.need_witness('Ok path of ' + op, nok > 0)
-        ctx.expect_witness('slashed pre-state reachable (%s)' % op, 'after slashing')
+        if shape is None:
+            ctx.expect_witness('slashed pre-state reachable (%s)' % op, 'after slashing')
         if op.startswith('unbond'):
             ctx.expect_witness('undelegation branch reachable (%s)' % op, 'with undelegation')
         ctx.ob.bounds = {'validators': nv, 'delegations': nd}
+        if shape is not None:
+            ctx.ob.bounds['shape'] = shape.__doc__
     return ob
 
 
@@ -81,6 +95,7 @@ for _op in ['bond', 'bond_stsei', 'bond_rewards']:
 for _op in ['unbond_bsei', 'unbond_stsei']:
     for _nd in (1, 2):        # 3 delegation entries exceed the executor's block budget (undelegation plan: 3 passes x 3 entries)
         OBLIGATIONS.append(('%s_d%d' % (_op, _nd), mk(_op, 1, _nd)))
+OBLIGATIONS.append(('unbond_bsei_d8_equal', mk('unbond_bsei', 1, 8, shape=equal_delegations)))
 for _op in ['convert_bsei', 'convert_stsei', 'check_slashing']:
     OBLIGATIONS.append(('%s_d1' % _op, mk(_op, 1, 1)))
 
